@@ -268,7 +268,12 @@ int main(int argc, char **argv) {
       if (recheck) {
         RunResult r2 = w->execute(plan);
         total["rechecked"] += 1;
-        if (r2.event_hash != r.event_hash || r2.violation != r.violation || r2.rule != r.rule) {
+        if (r.violation && (r2.event_hash != r.event_hash || r2.violation != r.violation || r2.rule != r.rule)) {
+          // a violating run that behaves differently when executed again in the same process: the code under
+          // test may keep state across engines (itself a defect); the fresh-process replays of the gate decide
+          printf("NOTE in-process re-execution of violating run %llu differs (%s / %s)\n", rs, r.rule.c_str(), r2.violation ? r2.rule.c_str() : "ok");
+          fflush(stdout);
+        } else if (r2.event_hash != r.event_hash || r2.violation != r.violation || r2.rule != r.rule) {
           printf("NONDET %llu %llu %s %s %s %s\n",
                  static_cast<unsigned long long>(idx),
                  rs,
